@@ -66,13 +66,23 @@ def main():
                              'execution with sidecar contracts, loop '
                              'invariants, frames) -> z3 / cvc5; run-time '
                              'contract monitors as bounded stand-in'),
+      }, {
+          'name': 'lean4-mathlib',
+          'path': 'mmverif/lean',
+          'serves_properties': ['C09'],
+          'kind_free_text': ('Lean 4 + Mathlib proof of the finite-set '
+                             'ranking lemma whose two instances the greedy '
+                             'termination obligation assumes; re-checked by '
+                             '`lake env lean` on every C09 run'),
       }],
       'checks': checks,
       'not_applicable': na,
       'notes': ('Exit codes of every check: 0 held, 1 VIOLATION, 2 UNDECIDED '
                 '(solver unknown on both back ends), 3 checker error. '
                 'MMVERIF_REPO=<dir> points the checks at another source tree '
-                '(used by the mutant self-test only).'),
+                '(used by the self-tests only: seeded changes, mutants, '
+                'reverted fixes). ./check.sh --replay <file> replays a reported '
+                'violation on the current tree.'),
   }
   with open(os.path.join(common.VERIF, 'MANIFEST.json'), 'w') as f:
     json.dump(manifest, f, indent=1)
